@@ -23,9 +23,14 @@ def run_one(mod, R, rec, subst=False):
 
 
 def _run_one(mod, R, rec, subst, fill):
-    from sx.harness import ConcEnv
+    from sx.harness import ConcEnv, load_repo
     from sx.core import Infeasible
     from sx import env as sxenv
+    # every attempt starts from freshly imported repository modules: process-wide state left by an earlier attempt
+    # (memo tables, class-level caches) must not hide or fake a history-dependent failure
+    R = load_repo(False)
+    if hasattr(mod, "setup_native"):
+        mod.setup_native(R)
     E = ConcEnv(rec["witness"], rec.get("params"), fill)
     E.H = sxenv.NativeOracle(rec.get("oracle") if subst else None)
     if subst:
@@ -37,9 +42,36 @@ def _run_one(mod, R, rec, subst, fill):
         return dict(status="infeasible", defaulted=E.defaulted)
     except BaseException as e:
         return dict(status="error", detail="%s: %s" % (type(e).__name__, e), trace=traceback.format_exc()[-1500:])
+    extra = {}
+    if getattr(E, "preempt_points", None) is not None:
+        extra = dict(preempt_points=E.preempt_points, preempt_fired=E.preempt_fired)
     if E.failed:
-        return dict(status="reproduced", failed=E.failed, passed=E.passed, ret=repr(ret)[:200])
-    return dict(status="passed", passed=E.passed, ret=repr(ret)[:200])
+        return dict(status="reproduced", failed=E.failed, passed=E.passed, ret=repr(ret)[:200], **extra)
+    return dict(status="passed", passed=E.passed, ret=repr(ret)[:200], **extra)
+
+
+def preempt_search(mod, R, rec, spec):
+    """a witness with a pre-emption point chosen by the solver (counted in the engine's yield points) is confirmed
+    natively on two real threads: thread A is suspended at its j-th line inside the repository, thread B runs to
+    completion, A resumes; j ranges over every line event of A (bounded) until the harness fails"""
+    import time
+    t0 = time.time()
+    w = dict(rec["witness"], _count_points=1, _native_preempt=0)
+    r0 = _run_one(mod, R, dict(rec, witness=w), False, 0)
+    if r0["status"] == "reproduced":
+        r0["witness_found"] = w
+        return r0
+    n = min(int(r0.get("preempt_points") or 0), spec.get("max_points", 5000))
+    for j in range(1, n + 1):
+        if time.time() - t0 > spec.get("seconds", 600):
+            break
+        w = dict(rec["witness"], _native_preempt=j)
+        r = _run_one(mod, R, dict(rec, witness=w), False, 0)
+        if r["status"] == "reproduced":
+            r["witness_found"] = w
+            r["native_preemption_points_tried"] = j
+            return r
+    return None
 
 
 def random_search(mod, R, rec, spec):
@@ -75,6 +107,8 @@ def main():
         print(json.dumps(dict(results=[run_one(mod, R, r) for r in data["batch"]])))
     else:
         r = run_one(mod, R, data)
+        if r["status"] == "passed" and getattr(mod, "PREEMPT_REPLAY", None) and "preempt_at" in data.get("witness", {}):
+            r = preempt_search(mod, R, data, mod.PREEMPT_REPLAY) or r
         if r["status"] == "passed" and getattr(mod, "RANDOM_REPLAY", None):
             # the witness depends on a quantity the group model abstracts (e.g. an x coordinate with a leading zero byte):
             # look for a concrete instance by re-drawing the listed byte inputs at random, for a bounded time
